@@ -500,7 +500,11 @@ pub fn expectation(rule_text: &str, data: Option<&[u8]>, oracle: &mut Oracle) ->
         Ok(v) => v,
         Err(e) => return (Expect::Failure { log_prefix: String::new(), why: format!("data text is not JSON: {}", e) }, None),
     };
-    let op = Op::apply(&rule.to_string(), &data_v.to_string(), false);
+    // The oracle is given the texts exactly as the command received them: re-serialising the parsed
+    // values first would parse some doubles twice, and serde_json's default float parser is not
+    // exactly round-tripping (1.7976931348623157e308 drifts by an ulp per pass).
+    let _ = (&rule, &data_v);
+    let op = Op::apply(rule_text, data_str, false);
     let iso = oracle.query(&op, STACK_KB);
     let e = match &iso.res {
         Res::Ok(text) => Expect::Success { stdout: format!("{}{}\n", iso.out(), text) },
